@@ -462,7 +462,7 @@ class Interp:
         if v is not None:
             return v
         from . import builtins as B
-        v = B.builtin_name(name)
+        v = B.builtin_name(name, self)
         if v is not None:
             return v
         v = self.ver.spec_name(name)
